@@ -126,7 +126,7 @@ class KeySet:
         for key in self.keys:
             # trigger key to generate kid via thumbprint
             key.ensure_kid()
-            if isinstance(key, OctKey):
+            if isinstance(key, OctKey) and private is not False:
                 keys.append(key.as_dict(**params))
             else:
                 keys.append(key.as_dict(private=private, **params))
